@@ -1,12 +1,15 @@
 ----------------------------- MODULE MCHandlers -----------------------------
 (* Episodes for Handlers: which setups and request combinations are explored, and the emission of complete schedules. *)
 EXTENDS Handlers, Json
-CONSTANT Family      \* "pairs": every pair of the menu; "triples": triples of the updates; "demo": two referrer pushes
+CONSTANT Family      \* "pairs": every pair of the menu; "triples": triples of the updates; "demo": two referrer pushes;
+                     \* "gcpairs" / "gctriples": a collection of the repository among the requests
 Menu == {Put("a1", None), Put("a2", None), Put("a2", "t2"), Put("m2", "t1"), Put("m1", "t2"), Del("a1", None), Del("a2", None),
          Del("m1", None), Del(None, "t1"), Refs("m1"), Get("t1"), TagsL, BPut("b4"), BDel("b3"), BDel("b2"), BGet("b3")}
 Updates == {Put("a1", None), Put("a2", None), Del("a1", None), Del("a2", None), Put("m2", "t1"), Refs("m1"), BDel("b3"), BPut("b3")}
 MCSetups == IF Family = "demo" THEN {"s0"} ELSE {"s0", "s1", "s2", "s3"}
 MCCombos == CASE Family = "pairs"   -> {<<a, b>> : a \in Menu, b \in Menu}
+              [] Family = "gcpairs" -> {<<a, GCReq>> : a \in Menu}
+              [] Family = "gctriples" -> {<<a, GCReq, b>> : a \in Updates, b \in Updates}
               [] Family = "triples" -> {<<a, b, c>> : a \in Updates, b \in Updates, c \in Updates}
               [] Family = "demo"    -> {<<Put("a1", None), Put("a2", None)>>}
 \* emitted at quiescence (simulation mode: one line per behaviour)
